@@ -1,6 +1,7 @@
 package gen
 
 import (
+	"strings"
 	"encoding/json"
 	"fmt"
 	"sort"
@@ -786,11 +787,43 @@ func GenDesign(t *verifsim.Tape, name, focus string) *spec.Design {
 			}
 		}
 	}
+	if g.focus == "dir" {
+		g.showcase()
+	}
 	for f := range g.feats {
 		g.d.Features = append(g.d.Features, f)
 	}
 	sort.Strings(g.d.Features)
 	return g.d
+}
+
+// showcase adds, to designs whose generated FILES are what is judged (C09), one method whose payload and
+// result is a type with an attribute of every string format and every primitive kind: goa writes an example
+// value for each of them into the OpenAPI documents and the CLI, each through its own generator, and "a
+// function of the design alone" has to hold for every one of them.
+func (g *dgen) showcase() {
+	o := &spec.Type{Kind: spec.Object}
+	for _, f := range []string{"date", "date-time", "uuid", "email", "hostname", "ipv4", "ipv6", "ip", "uri", "mac", "cidr", "regexp", "json", "rfc1123"} {
+		o.Fields = append(o.Fields, &spec.Attr{Name: "f_" + strings.NewReplacer("-", "_").Replace(f), Type: &spec.Type{Kind: spec.String}, Val: &spec.Validation{Format: f}})
+	}
+	for _, k := range []string{spec.Boolean, spec.Int, spec.Int32, spec.Int64, spec.UInt, spec.UInt32, spec.UInt64, spec.Float32, spec.Float64, spec.String, spec.Bytes, spec.Any} {
+		o.Fields = append(o.Fields, &spec.Attr{Name: "k_" + k, Type: &spec.Type{Kind: k}})
+	}
+	o.Fields = append(o.Fields,
+		&spec.Attr{Name: "k_array", Type: &spec.Type{Kind: spec.Array, Elem: &spec.Attr{Type: &spec.Type{Kind: spec.String}, Val: &spec.Validation{Format: "uuid"}}}},
+		&spec.Attr{Name: "k_map", Type: &spec.Type{Kind: spec.Map, Key: &spec.Attr{Type: &spec.Type{Kind: spec.String}}, Elem: &spec.Attr{Type: &spec.Type{Kind: spec.Int}}}},
+		&spec.Attr{Name: "k_pattern", Type: &spec.Type{Kind: spec.String}, Val: &spec.Validation{Pattern: "^[a-f0-9]{4,8}$"}},
+		&spec.Attr{Name: "k_enum", Type: &spec.Type{Kind: spec.String}, Val: &spec.Validation{Enum: []any{"red", "green", "blue"}}},
+		&spec.Attr{Name: "k_range", Type: &spec.Type{Kind: spec.Int}, Val: &spec.Validation{Min: fp(3), Max: fp(900)}},
+		&spec.Attr{Name: "k_len", Type: &spec.Type{Kind: spec.String}, Val: &spec.Validation{MinLength: ip(3), MaxLength: ip(40)}})
+	u := &spec.UserType{Name: "Showcase", Attr: &spec.Attr{Type: o}}
+	g.d.Types = append(g.d.Types, u)
+	svc := g.d.Services[0]
+	m := &spec.Method{Name: "showcase", Params: map[string]string{}, Headers: map[string]string{}, Cookies: map[string]string{},
+		Payload: &spec.Attr{Type: &spec.Type{Kind: spec.User, Name: u.Name}}, Result: &spec.Attr{Type: &spec.Type{Kind: spec.User, Name: u.Name}},
+		Routes: []*spec.Route{{Verb: "POST", Path: "/" + svc.Name + "/showcase"}}, Responses: []*spec.Response{{Status: 200}}, NoSec: len(svc.Security) > 0 || len(g.d.Security) > 0}
+	svc.Methods = append(svc.Methods, m)
+	g.feat("dir:showcase")
 }
 
 
